@@ -34,7 +34,7 @@ VECS = [[1.0, -2.0, 0.5], [0.0, 0.0, 3.0]]
 
 def bounds(tier):
     D = 2 if tier == 'quick' else 3
-    return dict(surface_sizes='{2,3,4}x{2..5}, su != sv', volume_sizes='permutations of (2,3,4)', degrees='1..%d' % D,
+    return dict(surface_sizes='{2,3,4}x{2..5}, su != sv; 11x3, 4x12, 17x18', volume_sizes='permutations of (2,3,4); 11x3x2, 2x11x3, 3x2x11, 9x5x6, 7x6x7', degrees='1..%d' % D,
                 rational=[False, True], net='coded', manager_sizes='curves 2..5, the 9 surface sizes, the 6 volume sizes',
                 sweep='curves p 1..%d, surfaces from the surface alphabet, 2 vectors' % D, inplace=[False, True])
 
@@ -44,15 +44,21 @@ def bounds(tier):
 # ----------------------------------------------------------------------------------------
 
 def _kv(n, p):
+    if n - p - 1 > 3:
+        return A.uniform_kv(p, n)
     return A.clamped_kv(p, [(x, 1) for x in INTERIOR[n - p - 1]])
 
 
 def _desc(sizes, degrees, rational):
+    degrees = [min(p, n - 1) for n, p in zip(sizes, degrees)]
     return A.shape_desc([_kv(n, p) for n, p in zip(sizes, degrees)], list(degrees), rational, 3, 'coded', 'coded')
 
 
 SURF_SIZES = [(a, b) for a in (2, 3, 4) for b in (2, 3, 4, 5) if a != b]
 VOL_SIZES = list(itertools.permutations((2, 3, 4)))
+# beyond the small sizes: more than 9 control points in one direction (each direction in turn), more than 256 in total
+BIG_SURF = [(11, 3), (4, 12), (17, 18)]
+BIG_VOL = [(11, 3, 2), (2, 11, 3), (3, 2, 11), (9, 5, 6), (7, 6, 7)]
 
 
 def _degree_combos(sizes, D):
@@ -84,6 +90,24 @@ def gen_cases(tier, seed):
         for degs in _degree_combos(sz, D):
             for rat in (False, True):
                 cases.append(dict(kind='volume', shape=_desc(sz, degs, rat)))
+    for sz in [(11,), (12,), (258,)] + BIG_SURF + BIG_VOL:
+        cases.append(dict(kind='manager', sizes=list(sz)))
+    for sz in BIG_SURF:
+        cases.append(dict(kind='fliphelpers', sizes=list(sz)))
+        for degs, rat in (((1, 1), False), ((2, 1), True), ((2, 2), False)):
+            if tier == 'quick' and sz[0] * sz[1] > 256 and degs == (2, 2):
+                continue
+            cases.append(dict(kind='surface', shape=_desc(sz, degs, rat)))
+        if sz[0] * sz[1] < 100:
+            for degs, rat in (((1, 2), False), ((2, 1), True)):
+                cases.append(dict(kind='sweep', shape=_desc(sz, degs, rat)))
+    for n, p, rat in ((11, 1, False), (12, 2, True), (11, 3, True)):
+        cases.append(dict(kind='sweep', shape=_desc((n,), (p,), rat)))
+    for sz in BIG_VOL:
+        for degs, rat in (((1, 1, 1), False), ((2, 1, 1), True)) + (() if tier == 'quick' else (((1, 2, 2), False),)):
+            if tier == 'quick' and sz[0] * sz[1] * sz[2] > 256 and rat:
+                continue        # the rational huge volumes cost ~40 s each: thorough only
+            cases.append(dict(kind='volume', shape=_desc(sz, degs, rat)))
     cases.append(dict(kind='container', shapes=[_desc((2, 3), (1, 2), False), _desc((4, 3), (2, 1), True), _desc((3, 5), (2, 2), False)]))
     return cases
 
